@@ -322,6 +322,9 @@ def handlers(emit, repo):
         logging.disable(logging.CRITICAL)
         b = job["board"]
         pr = job["probs"]
+        rden = b.get("rden", 1)
+        if rden != 1:       # fractional rewards (numerators over rden)
+            b = dict(b, rewards=[[v / rden for v in row] for row in b["rewards"]])
         scratch = tempfile.mkdtemp(prefix="verif_rob_")
         cwd = os.getcwd()
         ev = {"e": "Roborta", "keys": [], "loaderr": "", "games": [], "exact": [], "raw": [], "outcomes": [],
@@ -342,6 +345,24 @@ def handlers(emit, repo):
                     new = sorted(set(listing(scratch)) - before)
                     ev["created"] = new            # C17: the manual entry point names its file after the board
                     path = new[0] if len(new) == 1 else path
+                elif job.get("via") == "cli":
+                    # the generator's own command line; the board is the one its seed defines
+                    import subprocess
+                    c = job["cli"]
+                    before = set(listing(scratch))
+                    args = [sys.executable, os.path.join(repo, "roberta_generator.py"), "--seed", str(c["seed"]),
+                            "--width", str(c["W"]), "--length", str(c["L"]), "--max_reward", str(c["maxr"]),
+                            "-p", repr(pr["rb"] / 1e6), "-q", repr(pr["lb"] / 1e6), "-r", repr(pr["tb"] / 1e6),
+                            "-t", repr(c["lt"] / 1e6)] + (["--force_down"] if c["fd"] else [])
+                    p3 = subprocess.run(args, cwd=scratch, stdout=subprocess.DEVNULL, stderr=subprocess.DEVNULL,
+                                        timeout=280, env=dict(os.environ, PYTHONDONTWRITEBYTECODE="1"))
+                    new = sorted(set(listing(scratch)) - before)
+                    ev["created"] = new
+                    if p3.returncode != 0 or len(new) != 1:
+                        raise RuntimeError("command line failed")
+                    path = new[0]
+                    m, r, lo = rg.gen_rnd_board(c["seed"], c["L"], c["W"], c["lt"] / 1e6, c["maxr"], c["fd"])
+                    ev["board"] = {"L": c["L"], "W": c["W"], "moves": m, "rewards": r, "loose": lo, "rden": 1}
                 else:
                     rg.write_robots(path, b["L"], b["W"], b["moves"], b["rewards"], b["loose"],
                                     pr["tb"] / 1e6, pr["rb"] / 1e6, pr["lb"] / 1e6)
@@ -350,7 +371,7 @@ def handlers(emit, repo):
             except Exception as exc:
                 ev["loaderr"] = type(exc).__name__
                 d = {}
-            if ev["keys"] == ["game_a", "game_b", "game_c"]:
+            if ev["keys"] == ["game_a", "game_b", "game_c"] and not job.get("loadonly"):
                 for k in ev["keys"]:
                     desc = d[k]
                     raw = {"valid": True, "err": "", "minpos": True, "sumdev": 0}
